@@ -264,8 +264,14 @@ def cases(draw):
     with_default = draw(st.booleans())
     # the job may have run another script before, ending in any unit mode
     previous = draw(st.sampled_from([None, None, 'raw', 'rgb', 'logical']))
+    # the registers may have been set under another unit mode than the one
+    # in force when the command is issued: durations and delays keep their
+    # meaning (the colour's re-expression is C14's business)
+    switch_to = draw(st.sampled_from([None, None, None, 'raw', 'rgb',
+                                      'logical']))
     return {'mode': mode, 'regs': {k: num(v) for k, v in regs.items()},
-            'kind': kind, 'with_default': with_default, 'previous': previous}
+            'kind': kind, 'with_default': with_default, 'previous': previous,
+            'switch_to': switch_to}
 
 
 def render(case):
@@ -273,6 +279,8 @@ def render(case):
     lines.append(' '.join('{} {}'.format(reg, text)
                           for reg, text in case['regs'].items()))
     kind = case['kind']
+    if case.get('switch_to'):
+        lines.append('units ' + case['switch_to'])
     if kind.startswith('matrix') and case['with_default']:
         lines.append('set default')
     lines.append({
@@ -367,6 +375,10 @@ def check_case(acc, case):
         acc.fail('protocol:' + case['kind'] + ':' + mode,
                  '{!r}: {}'.format(script, message), payload)
     color_ok = ux.color_acceptable(mode, regs)
+    switched = case.get('switch_to') not in (None, mode)
+
+    def matches(acceptable, color):
+        return switched or ux.color_matches(acceptable, color)
     duration_ok = ux.duration_acceptable(mode, regs['duration'])
     wanted = expected_commands(case)
     events = [e for e in result.trace if e[0] == 'cmd']
@@ -401,8 +413,7 @@ def check_case(acc, case):
                         staged = pos in want[2]
                         if staged or case['with_default'] or (
                                 case['kind'] == 'matrix_default'):
-                            if not ux.color_matches(
-                                    color_ok, cell):
+                            if not matches(color_ok, cell):
                                 problems.append(
                                     'cell {} is {} expected {}'.format(
                                         pos, cell, _show(color_ok)))
@@ -412,8 +423,7 @@ def check_case(acc, case):
                                 'unstaged cell {} is {} expected black'
                                 .format(pos, cell))
                             break
-            if color is not None and not ux.color_matches(
-                    color_ok, color):
+            if color is not None and not matches(color_ok, color):
                 problems.append('{} colour {} expected {}'.format(
                     want[0], color, _show(color_ok)))
             if duration not in duration_ok:
@@ -440,6 +450,8 @@ def check_case(acc, case):
     labels = ['kind:' + case['kind'], 'mode:' + mode]
     if case.get('previous'):
         labels.append('job-ran-before-in:' + case['previous'])
+    if switched:
+        labels.append('registers-set-before-switch-to:' + case['switch_to'])
     if not in_range_rgb:
         labels.append('rgb-out-of-range')
     acc.case(key=script, nontrivial=nontrivial, labels=labels,
